@@ -1,4 +1,5 @@
 import Fabio.Model.C12Auth
+import Fabio.Model.C12Htpasswd
 /-! Helper lemmas for `Props/C12Auth.lean`: base64 quanta, `strings.Cut`, characters as bytes. Core Lean only. -/
 namespace Fabio.Lemmas.C12
 open Fabio Fabio.Model.C12
@@ -124,5 +125,73 @@ theorem cut_some (c : Char) (s u p : List Char) (h : cut c s = some (u, p)) :
 
 theorem bytesToChars_charsToBytes (cs : List Char) : bytesToChars (charsToBytes cs) = cs := by
   simp [bytesToChars, charsToBytes, Function.comp_def, Char.ofNat_toNat]
+
+/-! ### `strings.Join` then `strings.Split` -/
+
+theorem splitOn_ne_nil (s : List Char) : splitOn ',' s ≠ [] := by
+  cases s with
+  | nil => simp [splitOn]
+  | cons c cs =>
+    simp only [splitOn]
+    split
+    · simp
+    · split <;> simp
+
+theorem splitOn_append_sep (a b : List Char) :
+    splitOn ',' (a ++ ',' :: b) = splitOn ',' a ++ splitOn ',' b := by
+  induction a with
+  | nil => simp [splitOn]
+  | cons c cs ih =>
+    by_cases hc : c = ','
+    · subst hc; simp [splitOn, ih]
+    · have hc' : (c == ',') = false := by simpa using hc
+      simp only [List.cons_append, splitOn, hc', Bool.false_eq_true, ↓reduceIte, ih]
+      cases hs : splitOn ',' cs with
+      | nil => exact absurd hs (splitOn_ne_nil cs)
+      | cons x xs => simp
+
+theorem splitOn_joinComma (l : List Char) (ls : List (List Char)) :
+    splitOn ',' (joinComma (l :: ls)) = (l :: ls).flatMap (splitOn ',') := by
+  induction ls generalizing l with
+  | nil => simp [joinComma]
+  | cons m ms ih =>
+    have : joinComma (l :: m :: ms) = l ++ ',' :: joinComma (m :: ms) := rfl
+    rw [this, splitOn_append_sep, ih]
+    simp
+
+/-- header lines that are all empty contribute nothing: an empty element is no address -/
+theorem joinComma_nil_iff (ls : List (List Char)) (h : joinComma ls = []) : ∀ l ∈ ls, l = [] := by
+  induction ls with
+  | nil => simp
+  | cons l ls ih =>
+    cases ls with
+    | nil => simpa [joinComma] using h
+    | cons m ms => simp [joinComma] at h
+
+theorem xffDenied_all_empty (P : Parsers) (r : Rules) (host : List Char) (xs : List (List Char))
+    (hP : P.parseIP [] = none) (h : ∀ x ∈ xs, x = []) : xffDenied P r host xs = false := by
+  induction xs with
+  | nil => rfl
+  | cons x xs ih =>
+    have hx : x = [] := h x (by simp)
+    subst hx
+    have ih' := ih (fun y hy => h y (by simp [hy]))
+    have ht : trimSpace ([] : List Char) = [] := by decide
+    have hz : stripZone ([] : List Char) = [] := by decide
+    simp only [xffDenied, ht, hz, hP]
+    split
+    · exact ih'
+    · exact ih'
+
+
+theorem runAuthF_append_attempt (H : List Char → Option (List Char → Bool)) (text : List Char) (h : List AuthOpF)
+    (c : Option (List Char × List Char)) :
+    runAuthF H text (h ++ [.attempt c]) = runAuthF H text h ++ [fileVerdict H (fileAfterF text h) c] := by
+  induction h generalizing text with
+  | nil => simp [runAuthF, fileAfterF]
+  | cons op h ih =>
+    cases op with
+    | attempt c' => simp [runAuthF, fileAfterF, ih]
+    | reload s => simp [runAuthF, fileAfterF, ih]
 
 end Fabio.Lemmas.C12
